@@ -147,15 +147,14 @@ Lemma run_obs_length cfg ops c : length (run_obs cfg c ops) = length ops.
 Proof. revert c. induction ops as [|o ops IH]; intro c; cbn [run_obs length]; [reflexivity|]. now rewrite IH. Qed.
 
 (* ------------------------------------------------------------------ MAIN, on the wire *)
-(* what the driver evaluates on the model's own output: for every input whose reports carry
-   update times, prop_case accepts run_case *)
-Lemma prop_case_model inp :
-  ops_timed (snd (decode inp)) = true -> prop_case inp (run_case inp) = 0.
+(* what the driver evaluates on the model's own output: for EVERY input, prop_case accepts
+   run_case *)
+Lemma prop_case_model inp : prop_case inp (run_case inp) = 0.
 Proof.
-  unfold prop_case, run_case. destruct (decode inp) as [cfg ops]. cbn [snd]. intro Ht.
+  unfold prop_case, run_case. destruct (decode inp) as [cfg ops].
   rewrite <- (run_obs_length cfg ops []) at 1.
   rewrite parse_flat by (apply run_obs_wf, cache_ok_nil).
-  now apply prop_code_model.
+  apply prop_code_model.
 Qed.
 
 (* an implementation observable accepted by prop_case satisfies the property *)
@@ -167,16 +166,6 @@ Proof.
   unfold prop_case. destruct (decode inp) as [cfg ops]. cbn [fst snd].
   destruct (parse_obs (length ops) obs) as [o|]; [|discriminate].
   intro H. exists o. split; [reflexivity|]. now apply prop_code_sound.
-Qed.
-
-(* the model never reports a finding signature on its own output for timed histories *)
-Lemma finding_sig_model inp :
-  ops_timed (snd (decode inp)) = true -> finding_sig inp (run_case inp) = 0.
-Proof.
-  unfold finding_sig, run_case. destruct (decode inp) as [cfg ops]. cbn [snd]. intro Ht.
-  rewrite <- (run_obs_length cfg ops []) at 1.
-  rewrite parse_flat by (apply run_obs_wf, cache_ok_nil).
-  now rewrite prop_code_model.
 Qed.
 
 (* stream "float": the decision procedure accepts the model's own output *)
